@@ -56,33 +56,41 @@ func (fx *fixture) countAfter(from time.Time) (n int, list string) {
 	return n, b.String()
 }
 
+// failC labels the outcome (so that the evidence shows which shapes were seen behind a known
+// finding) and reports it.
+func failC(t world.TB, sig, format string, args ...any) {
+	world.Label("outcome/" + sig)
+	world.Fail(t, sig, format, args...)
+}
+
 // judgeAfterwards is the oracle applied after concurrent Start / Stop calls have all returned:
 // a final Stop leaves no stream running, a final Start exactly one.
 func judgeAfterwards(t world.TB, fx *fixture, how string) {
 	period := fx.period
 	if p := guarded(fx.hm.StopHeartbeat); p != "" {
-		world.Fail(t, "C16/concurrent/"+panicShape(p)+"/final-stop", "%s: the final StopHeartbeat panicked: %s", how, p)
+		failC(t, "C16/concurrent/"+panicShape(p)+"/final-stop", "%s: the final StopHeartbeat panicked: %s", how, p)
 	}
 	stopped := time.Now()
 	fx.obs.sample(fx.feat)
 	if fx.hm.IsHeartbeatRunning() {
-		world.Fail(t, "C16/concurrent/running-after-stop", "%s: IsHeartbeatRunning() = true after the final StopHeartbeat returned", how)
+		failC(t, "C16/concurrent/running-after-stop", "%s: IsHeartbeatRunning() = true after the final StopHeartbeat returned", how)
 	}
 	time.Sleep(4*period + 30*time.Millisecond)
 	fx.obs.sample(fx.feat)
 	if n, list := fx.countAfter(stopped); n > 1 {
-		world.Fail(t, "C16/concurrent/second-stream", "%s: %d refreshes within %v after the final StopHeartbeat returned (%s): a heartbeat stream survived that nobody can stop any more", how, n, time.Since(stopped).Round(time.Millisecond), list)
+		fx.leaked = true
+		failC(t, "C16/concurrent/second-stream", "%s: %d refreshes within %v after the final StopHeartbeat returned (%s): a heartbeat stream survived that nobody can stop any more", how, n, time.Since(stopped).Round(time.Millisecond), list)
 	}
 	if fx.hm.IsHeartbeatRunning() {
-		world.Fail(t, "C16/concurrent/running-after-stop", "%s: IsHeartbeatRunning() = true %v after the final StopHeartbeat", how, time.Since(stopped).Round(time.Millisecond))
+		failC(t, "C16/concurrent/running-after-stop", "%s: IsHeartbeatRunning() = true %v after the final StopHeartbeat", how, time.Since(stopped).Round(time.Millisecond))
 	}
 	// a final Start: exactly one stream
 	if p := guarded(func() { _ = fx.hm.StartHeartbeat() }); p != "" {
-		world.Fail(t, "C16/concurrent/"+panicShape(p)+"/final-start", "%s: the final StartHeartbeat panicked: %s", how, p)
+		failC(t, "C16/concurrent/"+panicShape(p)+"/final-start", "%s: the final StartHeartbeat panicked: %s", how, p)
 	}
 	started := time.Now()
 	if !fx.hm.IsHeartbeatRunning() {
-		world.Fail(t, "C16/concurrent/not-running-after-start", "%s: IsHeartbeatRunning() = false after the final StartHeartbeat", how)
+		failC(t, "C16/concurrent/not-running-after-start", "%s: IsHeartbeatRunning() = false after the final StartHeartbeat", how)
 	}
 	from := fx.obs.count(0)
 	fx.waitRefreshes(from, 3, 3*maxGap(fx.timeout)+100*time.Millisecond)
@@ -90,13 +98,13 @@ func judgeAfterwards(t world.TB, fx *fixture, how string) {
 	W := time.Since(started)
 	n, list := fx.countAfter(started)
 	if limit := int(W/period) + countSlack; n > limit {
-		world.Fail(t, "C16/concurrent/second-stream-after-start", "%s: %d refreshes within %v after the final StartHeartbeat (%s); one stream of period %v produces at most %d", how, n, W.Round(time.Millisecond), list, period, limit)
+		failC(t, "C16/concurrent/second-stream-after-start", "%s: %d refreshes within %v after the final StartHeartbeat (%s); one stream of period %v produces at most %d", how, n, W.Round(time.Millisecond), list, period, limit)
 	}
 	if n < 3 {
-		world.Fail(t, "C16/concurrent/no-stream-after-start", "%s: only %d refreshes within %v after the final StartHeartbeat (%s)", how, n, W.Round(time.Millisecond), list)
+		failC(t, "C16/concurrent/no-stream-after-start", "%s: only %d refreshes within %v after the final StartHeartbeat (%s)", how, n, W.Round(time.Millisecond), list)
 	}
 	if p := guarded(fx.hm.StopHeartbeat); p != "" {
-		world.Fail(t, "C16/concurrent/"+panicShape(p)+"/final-stop", "%s: the closing StopHeartbeat panicked: %s", how, p)
+		failC(t, "C16/concurrent/"+panicShape(p)+"/final-stop", "%s: the closing StopHeartbeat panicked: %s", how, p)
 	}
 }
 
@@ -135,7 +143,7 @@ func TestHeartbeatInterleavings(t *testing.T) {
 				continue
 			}
 			build := func() ([]sched.Op, func(*sched.Result)) {
-				fx := newFixture(schedTimeout, 1, false, false)
+				fx := newFixture(t, schedTimeout, 1, false, false)
 				if init == 0 {
 					fx.hm.StopHeartbeat()
 				}
@@ -172,22 +180,25 @@ func TestHeartbeatInterleavings(t *testing.T) {
 					// a known finding abandons this schedule only; the enumeration goes on
 					world.Guard(func() {
 						for name, p := range r.Panics {
-							world.Fail(t, "C16/concurrent/"+panicShape(p), "%s: %s panicked: %s", how, name, p)
+							failC(t, "C16/concurrent/"+panicShape(p), "%s: %s panicked: %s", how, name, p)
 						}
 						if r.Deadlock {
-							world.Fail(t, "C16/concurrent/deadlock", "%s: not all calls returned", how)
+							failC(t, "C16/concurrent/deadlock", "%s: not all calls returned", how)
 						}
 						judgeAfterwards(t, fx, how)
 					})
 				}
 			}
 			if replay != nil {
-				ops, judge := build()
-				judge(sched.RunChoices(ops, hbPoints, replay.Choices))
+				world.Guard(func() {
+					ops, judge := build()
+					judge(sched.RunChoices(ops, hbPoints, replay.Choices))
+				})
 				continue
 			}
 			max := scheduleCap(sc)
-			n := sched.Enumerate(hbPoints, max, build)
+			n := 0
+			world.Guard(func() { n = sched.Enumerate(hbPoints, max, build) })
 			if n >= max {
 				exhaustive = false
 				world.Label("sched/capped/" + sc.Name)
